@@ -1,4 +1,4 @@
-import NixModel.Lemmas.C20Spec
+import NixModel.Lemmas.C20Frame
 
 /-!
 # C20 — copies are complete, independent, and keep their internal links
@@ -16,8 +16,26 @@ that satisfies `FileOk` (node keys below `nextKey`, links lead to nodes — true
 produces), both id policies; `src` and `dst` may be the same graph (same-file copy) or different
 ones (cross-file copy).
 
-Partial / modelled: HDF5's `H5Ocopy` semantics are modelled (`copyNodes`), not verified; dataset
-*contents* (array data, property values, data frames) are outside the graph model.
+Theorems: `copy_complete`, `internal_links`, `ids_kept`, `ids_fresh` (+ `ids_fresh_distinct`),
+`name_used`, `dup_refused` (+ `dup_refused_existing`), `source_untouched`, `shallow_contents`, and
+independence: `copy_closed`, `path_stays_in_copy`, `old_links` (the two sides are separated),
+`independent_setAttr`, `independent_createProperty`, `independent_create_entity`,
+`independent_append` (a call addressed to one side changes only that side),
+`independent_delete_old_side` / `independent_delete_new_side` (deletion, when the other side does not
+carry the deleted ids).
+
+Partial / modelled:
+* deletion is global by `entity_id` (`deleteAll`), so after an id-keeping copy *within one file*
+  deleting on one side removes the same-id objects of the other side (DESIGN D13, open known
+  finding `C20-delete-hits-same-id-copy`, shared with C04): `independent_delete_full` is false —
+  `independent_delete_partial` (ids regenerated) + `independent_delete_counterexample`;
+  for copies into another file the two sides are two graphs and no function of one sees the other;
+* independence is proved per kind of call (attribute setters, `create_property`, `Entity.create_new`
+  behind every other `create_*`, link-list `append`, deletion), through frame lemmas that name the
+  nodes a call can change; role-link setters (`metadata`, `positions` …) are `createLinkIn` on the
+  addressed node and are covered by the same frame (`same_createLinkIn`) but have no theorem of their own;
+* HDF5's `H5Ocopy` semantics are modelled (`copyNodes`), not verified; dataset *contents* (array
+  data, property values, data frames) are outside the graph model (oracle only).
 -/
 namespace Nix.C20
 open Nix.Store Nix.Store.Graph Nix.Store.Lemmas Nix.Store.C20
@@ -262,6 +280,351 @@ theorem source_untouched (hdst : FileOk dst) (ho : owner ∈ keys dst) {shallow 
     · rw [if_pos h1, if_pos h1, ← h1, hens.2]
       split <;> simp
     · rw [if_neg h1, if_neg h1]; split <;> simp
+
+end
+
+/-- **shallow copy** (`children=False` of `copy_section`, before the properties are re-added): the root
+is duplicated with its attributes and its member links (to duplicates of the members); every member
+(the `properties` / `sections` groups, a linked section) is duplicated with its attributes but
+*without* links — an empty group. `copySection_is_generic` then re-adds the properties of the source
+one by one with `copyProperty` (each a deep generic copy into the emptied `properties` group). -/
+theorem shallow_contents {src dst : Graph} {owner obj : Nat} {cls name : String} {keepId : Bool} {g' : Graph}
+    {root : Nat} (hdst : FileOk dst)
+    (hc : copyGeneric src dst owner cls obj name true keepId = .ok (g', root)) :
+    root = copyMap src dst owner cls obj true obj ∧
+    g'.links root = (src.links obj).map (fun l => (l.1, copyMap src dst owner cls obj true l.2)) ∧
+    (∀ a, (a ≠ "entity_id" ∨ keepId = true) → a ≠ "name" → g'.getAttr root a = src.getAttr obj a) ∧
+    (∀ l ∈ src.links obj, l.2 ≠ obj →
+      g'.links (copyMap src dst owner cls obj true l.2) = [] ∧
+      nkind g' (copyMap src dst owner cls obj true l.2) = some ((src.node? l.2).getD {}).kind ∧
+      ∀ a, (a ≠ "entity_id" ∨ keepId = true) →
+        g'.getAttr (copyMap src dst owner cls obj true l.2) a = src.getAttr l.2 a) := by
+  obtain ⟨_, hg, hr⟩ := copyGeneric_ok hc
+  have hd := destOk_dest hdst owner cls
+  have hself : obj ∈ copySet src obj true := by
+    unfold copySet; simp only [↓reduceIte]; rw [List.mem_eraseDups]; exact List.mem_cons_self
+  have hmem : ∀ l ∈ src.links obj, l.2 ∈ copySet src obj true := by
+    intro l hl
+    unfold copySet; simp only [↓reduceIte]; rw [List.mem_eraseDups]
+    exact List.mem_cons.mpr (.inr (List.mem_map.mpr ⟨l, hl, rfl⟩))
+  have hroot_not : (emptiedSet src obj true).contains obj = false := by
+    unfold emptiedSet; simp
+  refine ⟨hr, ?_, ?_, ?_⟩
+  · rw [hr, hg, core_links_new hd hself, hroot_not]; rfl
+  · intro a ha hna
+    rw [hr, hg, core_getAttr_new hd hself hself a ha, if_neg (fun h => hna h.2)]
+  · intro l hl hne
+    have hin : (emptiedSet src obj true).contains l.2 = true := by
+      unfold emptiedSet
+      simp only [↓reduceIte, List.contains_eq_mem, List.mem_filter, List.mem_map, bne_iff_ne, ne_eq,
+        decide_eq_true_eq]
+      exact ⟨⟨l, hl, rfl⟩, hne⟩
+    refine ⟨?_, ?_, ?_⟩
+    · rw [hg, copyMap, core_links_new hd (hmem l hl), hin]; rfl
+    · rw [hg]; exact core_nkind_new hd (hmem l hl)
+    · intro a ha
+      rw [hg, copyMap, core_getAttr_new hd hself (hmem l hl) a ha, if_neg (fun h => hne h.1)]
+
+/-- a block `b` (2) with array `a` (4, `id:0`) and tag `t` (6, `id:1`) whose `references` group (7)
+links the array -/
+def linkedFile : Graph :=
+  { nodes := [(0, { links := [("data", 1)] }),
+              (1, { links := [("b", 2)] }),
+              (2, { attrs := [("entity_id", "id:9"), ("name", "b"), ("~kind", "block")],
+                    links := [("data_arrays", 3), ("tags", 5)] }),
+              (3, { links := [("a", 4)] }),
+              (4, { attrs := [("entity_id", "id:0"), ("name", "a"), ("~kind", "data_array")] }),
+              (5, { links := [("t", 6)] }),
+              (6, { attrs := [("entity_id", "id:1"), ("name", "t"), ("~kind", "tag")], links := [("references", 7)] }),
+              (7, { links := [("id:0", 4)] })],
+    nextKey := 8, nextId := 10 }
+
+/-- non-vacuity / illustration: copying the block within the file duplicates six nodes (keys 8–13); the
+copied tag's reference list (13) links the *copied* array (10), not the original (4); with regenerated
+ids the copy carries `id:10`, `id:11`, `id:12` -/
+example : ((copyGeneric linkedFile linkedFile 0 "data" 2 "b2" false true).toOption.map
+    fun r => (r.2, r.1.links 13, r.1.links 1, r.1.entityId 10)) =
+    some (8, [("id:0", 10)], [("b", 2), ("b2", 8)], some "id:0") := by decide
+
+example : ((copyGeneric linkedFile linkedFile 0 "data" 2 "b2" false false).toOption.map
+    fun r => (r.1.entityId 8, r.1.entityId 10, r.1.entityId 12, r.1.entityId 9, r.1.getAttr 8 "name")) =
+    some (some "id:10", some "id:11", some "id:12", none, some "b2") := by decide
+
+/-- an existing name is refused -/
+example : (copyGeneric linkedFile linkedFile 0 "data" 2 "" false true).toOption = none := by decide
+
+/-! ## independence
+
+After a deep copy the graph consists of two sides: the *old* nodes (the destination file as it was,
+after opening the container group — for a same-file copy this includes the source sub-graph) and the
+*new* nodes (the images under the key map). The only link between the sides is the one from the
+destination container to the copy's root. Calls addressed to one side change only that side. -/
+
+/-- `k'` is a node of the copy -/
+def IsNew (src dst : Graph) (owner : Nat) (cls : String) (obj : Nat) (k' : Nat) : Prop :=
+  ∃ k, ReachF src obj k ∧ k' = copyMap src dst owner cls obj false k
+
+/-- `k` is a node of the destination file as it was (after the container group was opened) -/
+def IsOld (dst : Graph) (owner : Nat) (cls : String) (k : Nat) : Prop := k ∈ keys (destG dst owner cls)
+
+section
+variable {src dst : Graph} {owner obj : Nat} {cls name : String} {keepId : Bool} {g' : Graph} {root : Nat}
+
+theorem new_ge (hk : IsNew src dst owner cls obj k') : (destG dst owner cls).nextKey ≤ k' ∧
+    k' < (destG dst owner cls).nextKey + (reachFrom src obj).length := by
+  obtain ⟨k, hr, e⟩ := hk
+  rw [e]
+  exact mapKey_range _ (reachFrom_complete src obj k hr)
+
+theorem old_lt (hdst : FileOk dst) (hk : IsOld dst owner cls k) : k < (destG dst owner cls).nextKey :=
+  (destOk_dest hdst owner cls).lt k hk
+
+/-- the two sides are disjoint -/
+theorem old_ne_new (hdst : FileOk dst) {k k' : Nat} (hk : IsOld dst owner cls k)
+    (hk' : IsNew src dst owner cls obj k') : k ≠ k' := by
+  have := old_lt hdst hk
+  have := (new_ge hk').1
+  omega
+
+/-- the copy is closed under links -/
+theorem copy_closed (hdst : FileOk dst)
+    (hc : copyGeneric src dst owner cls obj name false keepId = .ok (g', root))
+    (k' : Nat) (hk' : IsNew src dst owner cls obj k') (l : String × Nat) (hl : l ∈ g'.links k') :
+    IsNew src dst owner cls obj l.2 := by
+  obtain ⟨k, hr, e⟩ := hk'
+  rw [e] at hl
+  exact (internal_links hdst hc k hr l hl).1
+
+/-- a path that enters the copy stays inside it -/
+theorem path_stays_in_copy (hdst : FileOk dst)
+    (hc : copyGeneric src dst owner cls obj name false keepId = .ok (g', root))
+    {l l' : Loc} {p : Path} (hl : IsNew src dst owner cls obj l.key) (h : resolve g' l p = some l') :
+    IsNew src dst owner cls obj l'.key :=
+  resolve_closed (S := IsNew src dst owner cls obj) (fun k hk l hl => copy_closed hdst hc k hk l hl) hl h
+
+/-- links of old nodes lead to old nodes — except the one new link from the destination container
+to the copy's root -/
+theorem old_links (hdst : FileOk dst) (ho : owner ∈ keys dst)
+    (hc : copyGeneric src dst owner cls obj name false keepId = .ok (g', root))
+    (k : Nat) (hk : IsOld dst owner cls k) (l : String × Nat) (hl : l ∈ g'.links k) :
+    IsOld dst owner cls l.2 ∨ (k = destC dst owner cls ∧ l = (effName src obj name, root)) := by
+  obtain ⟨_, hg, hr⟩ := copyGeneric_ok hc
+  have hd := destOk_dest hdst owner cls
+  have hfo : FileOk (destG dst owner cls) := fileOk_ensureGroup hdst cls ho
+  rw [hg, core_links_old hd (hd.lt k hk)] at hl
+  split at hl
+  · rename_i hkc
+    rcases List.mem_append.mp hl with h | h
+    · exact .inl (hfo.target _ l (hkc ▸ h))
+    · simp only [List.mem_singleton] at h
+      exact .inr ⟨hkc, by rw [h, hr]⟩
+  · exact .inl (hfo.target k l hl)
+
+/-- **independent (attributes)**: an attribute setter addressed to a node of the copy leaves every old
+node as it was, and one addressed to an old node leaves every node of the copy as it was -/
+theorem independent_setAttr (hdst : FileOk dst)
+    (_hc : copyGeneric src dst owner cls obj name false keepId = .ok (g', root))
+    {g'' : Graph} {p : Path} {a : String} {v : Option String} {o : Loc}
+    (hop : setAttrOp g' p a v = .ok g'') (hr : resolve g' rootLoc p = some o) :
+    (IsNew src dst owner cls obj o.key → ∀ k, IsOld dst owner cls k → SameNode g' g'' k) ∧
+    (IsOld dst owner cls o.key → ∀ k', IsNew src dst owner cls obj k' → SameNode g' g'' k') :=
+  ⟨fun hn k hk => setAttrOp_frame hop hr k (old_ne_new hdst hk hn),
+   fun ho k' hk' => setAttrOp_frame hop hr k' (fun e => old_ne_new hdst ho hk' e.symm)⟩
+
+theorem nextKey_result (hc : copyGeneric src dst owner cls obj name false keepId = .ok (g', root)) :
+    g'.nextKey = (destG dst owner cls).nextKey + (reachFrom src obj).length := by
+  obtain ⟨_, hg, _⟩ := copyGeneric_ok hc
+  rw [hg, core_nextKey]; rfl
+
+/-- **independent (create)**: `create_property` on a section of the copy leaves every old node as it
+was; on an old section (not the destination container group itself, which is no entity) it leaves
+every node of the copy as it was. `independent_create_entity` is the same for `Entity.create_new`
+(sections, groups, arrays, tags, sources …). -/
+theorem independent_createProperty (hdst : FileOk dst) (ho : owner ∈ keys dst)
+    (hc : copyGeneric src dst owner cls obj name false keepId = .ok (g', root))
+    {g'' : Graph} {p : Path} {pname : String} {o : Loc}
+    (hop : createProperty g' p pname = .ok g'') (hr : resolve g' rootLoc p = some o) :
+    (IsNew src dst owner cls obj o.key → ∀ k, IsOld dst owner cls k → SameNode g' g'' k) ∧
+    (IsOld dst owner cls o.key → o.key ≠ destC dst owner cls →
+      ∀ k', IsNew src dst owner cls obj k' → SameNode g' g'' k') := by
+  have hnk := nextKey_result hc
+  constructor
+  · intro hn k hk
+    apply createProperty_frame hop hr k
+    · have := old_lt hdst hk; omega
+    · exact old_ne_new hdst hk hn
+    · intro hch
+      have := copy_closed hdst hc o.key hn ("properties", k) (child?_some_mem hch)
+      exact old_ne_new hdst hk this rfl
+  · intro hold hne k' hk'
+    apply createProperty_frame hop hr k'
+    · have := (new_ge hk').2; omega
+    · exact fun e => old_ne_new hdst hold hk' e.symm
+    · intro hch
+      rcases old_links hdst ho hc o.key hold ("properties", k') (child?_some_mem hch) with h | h
+      · exact old_ne_new hdst h hk' rfl
+      · exact hne h.1
+
+theorem independent_create_entity (hdst : FileOk dst) (ho : owner ∈ keys dst)
+    (hc : copyGeneric src dst owner cls obj name false keepId = .ok (g', root))
+    {g'' : Graph} {own k0 : Nat} {cname nm type kind : String}
+    (hop : entityCreateNew g' own cname nm type kind = .ok (g'', k0)) :
+    (IsNew src dst owner cls obj own → ∀ k, IsOld dst owner cls k → k ≠ k0 → SameNode g' g'' k) ∧
+    (IsOld dst owner cls own → own ≠ destC dst owner cls →
+      ∀ k', IsNew src dst owner cls obj k' → k' ≠ k0 → SameNode g' g'' k') := by
+  have hnk := nextKey_result hc
+  constructor
+  · intro hn k hk hk0
+    apply entityCreateNew_frame hop k
+    · have := old_lt hdst hk; omega
+    · exact old_ne_new hdst hk hn
+    · intro hch
+      have := copy_closed hdst hc own hn (cname, k) (child?_some_mem hch)
+      exact old_ne_new hdst hk this rfl
+    · exact hk0
+  · intro hold hne k' hk' hk0
+    apply entityCreateNew_frame hop k'
+    · have := (new_ge hk').2; omega
+    · exact fun e => old_ne_new hdst hold hk' e.symm
+    · intro hch
+      rcases old_links hdst ho hc own hold (cname, k') (child?_some_mem hch) with h | h
+      · exact old_ne_new hdst h hk' rfl
+      · exact hne h.1
+    · exact hk0
+
+/-- **independent (append)**: appending to a link list (group members, tag references, sources) of
+an entity of the copy leaves every old node as it was, and vice versa -/
+theorem independent_append (hdst : FileOk dst) (ho : owner ∈ keys dst)
+    (hc : copyGeneric src dst owner cls obj name false keepId = .ok (g', root))
+    {g'' : Graph} {c : Cont} {key : Key} (hop : contAppend g' c key = .ok g'') :
+    (IsNew src dst owner cls obj c.owner.key → ∀ k, IsOld dst owner cls k → SameNode g' g'' k) ∧
+    (IsOld dst owner cls c.owner.key → c.owner.key ≠ destC dst owner cls →
+      ∀ k', IsNew src dst owner cls obj k' → SameNode g' g'' k') := by
+  have hnk := nextKey_result hc
+  constructor
+  · intro hn k hk
+    apply contAppend_frame hop k
+    · have := old_lt hdst hk; omega
+    · exact old_ne_new hdst hk hn
+    · intro hch
+      have := copy_closed hdst hc c.owner.key hn (c.cname, k) (child?_some_mem hch)
+      exact old_ne_new hdst hk this rfl
+  · intro hold hne k' hk'
+    apply contAppend_frame hop k'
+    · have := (new_ge hk').2; omega
+    · exact fun e => old_ne_new hdst hold hk' e.symm
+    · intro hch
+      rcases old_links hdst ho hc c.owner.key hold (c.cname, k') (child?_some_mem hch) with h | h
+      · exact old_ne_new hdst h hk' rfl
+      · exact hne h.1
+
+/-! ### deletion
+
+`Container.__delitem__` removes, file-wide, every link to an object that carries one of the deleted
+ids (`deleteAll`). If no node of the *other* side carries one of those ids, the other side is
+untouched; that is the case when the ids were regenerated (`independent_delete_partial`) and
+trivially when the two sides live in different files (two graphs; a function of one does not see the
+other). With kept ids in one file it is false (`independent_delete_counterexample`, DESIGN D13). -/
+
+/-- deleting ids that no node of the copy carries leaves every node of the copy as it was -/
+theorem independent_delete_old_side (hdst : FileOk dst)
+    (hc : copyGeneric src dst owner cls obj name false keepId = .ok (g', root)) (ids : List String)
+    (hno : ∀ k' i, IsNew src dst owner cls obj k' → g'.entityId k' = some i → i ∉ ids)
+    (k' : Nat) (hk' : IsNew src dst owner cls obj k') : SameNode g' (g'.deleteAll ids) k' := by
+  refine ⟨fun a => getAttr_deleteAll g' ids k' a, ?_⟩
+  rw [links_deleteAll, List.filter_eq_self]
+  intro l hl
+  have hn := copy_closed hdst hc k' hk' l hl
+  unfold keepLink
+  cases hi : g'.entityId l.2 with
+  | none => rfl
+  | some i => simpa using hno l.2 i hn hi
+
+/-- deleting ids that no old node carries keeps every link between old nodes (in order: the link
+lists are filtered), and all attributes; at most the link to the copy's root disappears -/
+theorem independent_delete_new_side (hdst : FileOk dst) (ho : owner ∈ keys dst)
+    (hc : copyGeneric src dst owner cls obj name false keepId = .ok (g', root)) (ids : List String)
+    (hno : ∀ k i, IsOld dst owner cls k → g'.entityId k = some i → i ∉ ids)
+    (k : Nat) (hk : IsOld dst owner cls k) :
+    (∀ a, (g'.deleteAll ids).getAttr k a = g'.getAttr k a) ∧
+    ((g'.deleteAll ids).links k).Sublist (g'.links k) ∧
+    (∀ l ∈ g'.links k, l ≠ (effName src obj name, root) → l ∈ (g'.deleteAll ids).links k) := by
+  refine ⟨fun a => getAttr_deleteAll g' ids k a, links_deleteAll_sublist g' ids k, ?_⟩
+  intro l hl hne
+  rw [links_deleteAll, List.mem_filter]
+  refine ⟨hl, ?_⟩
+  rcases old_links hdst ho hc k hk l hl with h | h
+  · unfold keepLink
+    cases hi : g'.entityId l.2 with
+    | none => rfl
+    | some i => simpa using hno l.2 i h hi
+  · exact absurd h.2 hne
+
+/-- the full statement: deleting the source entity (by its id) leaves the copy in its container -/
+def independent_delete_full : Prop :=
+  ∀ (src dst : Graph) (owner obj : Nat) (cls name : String) (keepId : Bool) (g' : Graph) (root : Nat) (i : String),
+    FileOk dst → copyGeneric src dst owner cls obj name false keepId = .ok (g', root) →
+    src.entityId obj = some i →
+    (effName src obj name, root) ∈ (g'.deleteAll [i]).links (destC dst owner cls)
+
+/-- it holds when the ids are regenerated and the deleted id comes from the old supply -/
+theorem independent_delete_partial (src dst : Graph) (owner obj : Nat) (cls name : String) (g' : Graph)
+    (root : Nat) (i : String) (hdst : FileOk dst)
+    (hc : copyGeneric src dst owner cls obj name false false = .ok (g', root))
+    (hi : src.entityId obj = some i) (hsupply : ∃ j, j < dst.nextId ∧ i = idStr j) :
+    (effName src obj name, root) ∈ (g'.deleteAll [i]).links (destC dst owner cls) := by
+  have hnu := name_used hdst hc
+  have hmem : (effName src obj name, root) ∈ g'.links (destC dst owner cls) := child?_some_mem hnu.1
+  rw [links_deleteAll, List.mem_filter]
+  refine ⟨hmem, ?_⟩
+  obtain ⟨n, hn1, _, hn3⟩ := (ids_fresh hdst hc obj .refl).2 i hi
+  rw [← (copy_complete hdst hc).1] at hn3
+  unfold keepLink
+  simp only [hn3]
+  obtain ⟨j, hj1, hj2⟩ := hsupply
+  have : idStr n ≠ i := by
+    rw [hj2]; intro e; have := idStr_inj e; omega
+  simpa using this
+
+/-- a block `b` (node 2) with one array `a` (node 4, `id:0`) in `/data/b/data_arrays` (node 3) -/
+def oneArrayFile : Graph :=
+  { nodes := [(0, { links := [("data", 1)] }),
+              (1, { links := [("b", 2)] }),
+              (2, { attrs := [("entity_id", "id:9"), ("name", "b"), ("~kind", "block")], links := [("data_arrays", 3)] }),
+              (3, { links := [("a", 4)] }),
+              (4, { attrs := [("entity_id", "id:0"), ("name", "a"), ("~kind", "data_array")] })],
+    nextKey := 5, nextId := 10 }
+
+theorem oneArrayFile_ok : FileOk oneArrayFile := by
+  refine ⟨by decide, ?_⟩
+  intro k l hl
+  have hk : k ∈ keys oneArrayFile := (node?_isSome_iff _ k).mp (node?_isSome_of_link hl)
+  have : ∀ k ∈ keys oneArrayFile, ∀ l ∈ oneArrayFile.links k, l.2 ∈ keys oneArrayFile := by decide
+  exact this k hk l hl
+
+theorem oneArrayFile_copy_ok :
+    ∃ r, copyGeneric oneArrayFile oneArrayFile 2 "data_arrays" 4 "a2" false true = .ok r := by
+  cases h : copyGeneric oneArrayFile oneArrayFile 2 "data_arrays" 4 "a2" false true with
+  | ok r => exact ⟨r, rfl⟩
+  | error e =>
+    have : (copyGeneric oneArrayFile oneArrayFile 2 "data_arrays" 4 "a2" false true).toOption.isSome = true := by
+      decide
+    rw [h] at this; cases this
+
+/-- D13: the id-keeping copy `a2` of `a` in the same block disappears with `a` -/
+theorem independent_delete_counterexample : ¬ independent_delete_full := by
+  intro h
+  obtain ⟨r, hr⟩ := oneArrayFile_copy_ok
+  have e : r = (copyGeneric oneArrayFile oneArrayFile 2 "data_arrays" 4 "a2" false true).toOption.get! := by
+    rw [hr]; rfl
+  have := h oneArrayFile oneArrayFile 2 4 "data_arrays" "a2" true r.1 r.2 "id:0" oneArrayFile_ok hr (by decide)
+  rw [e] at this
+  revert this
+  decide
+
+/-- non-vacuity: the same copy with regenerated ids succeeds and survives the deletion -/
+example : (copyGeneric oneArrayFile oneArrayFile 2 "data_arrays" 4 "a2" false false).toOption.isSome = true := by
+  decide
 
 end
 
